@@ -321,11 +321,21 @@ class Analysis:
             return dom.unknown([l, r])
         if isinstance(e, ast.JoinedStr):
             parts = []
+            exprs = []
             for v in e.values:
                 if isinstance(v, ast.Constant):
                     parts.append(dom.const(v.value))
+                    exprs.append(v)
                 elif isinstance(v, ast.FormattedValue):
                     parts.append(self.ev(fi, n, v.value, depth + 1))
+                    exprs.append(v.value)
+            if getattr(dom, "fstring_is_concat", False) and parts:
+                # f"{a}{b}..." is a + b + ... for a domain about string shape
+                out, oe = parts[0], exprs[0]
+                for p_, e_ in zip(parts[1:], exprs[1:]):
+                    out = dom.add(out, p_, oe, e_)
+                    oe = None
+                return out
             return dom.fstring(parts)
         if isinstance(e, ast.Call):
             return self._call(fi, n, e, depth)
@@ -346,6 +356,38 @@ class Analysis:
         if isinstance(e, ast.Lambda):
             return dom.OBJ
         return dom.OTHER
+
+    def ev_at(self, fi, n, target: ast.AST):
+        """Value of sub-expression *target* of node *n*, with the variables of the comprehensions that enclose it
+        bound to their element values."""
+        chain = []
+
+        def find(x, comps):
+            if x is target:
+                chain.extend(comps)
+                return True
+            for c in ast.iter_child_nodes(x):
+                nxt = comps + [x] if isinstance(x, (ast.ListComp, ast.GeneratorExp, ast.SetComp, ast.DictComp)) else comps
+                if find(c, nxt):
+                    return True
+            return False
+
+        found = any(find(e, []) for e in n.exprs())
+        if not found or not chain:
+            return self.ev(fi, n, target)
+        pushed = 0
+        try:
+            for comp in chain:
+                env: Dict[str, object] = {}
+                self._env.append(env)
+                pushed += 1
+                for g in comp.generators:
+                    el = self.dom.iter_elem(self, fi, n, g.iter, self.ev(fi, n, g.iter))
+                    self._bind_target(env, g.target, el)
+            return self.ev(fi, n, target)
+        finally:
+            for _ in range(pushed):
+                self._env.pop()
 
     def comp_elem(self, fi, n, e, depth: int = 0):
         """Value of one element of a comprehension (tuple structure kept)."""
